@@ -142,12 +142,12 @@ def classify_diag(d):
     return None
 
 
-def verify_unit(unit, info, repo, workdir, seed=None, rlimit_mult=1):
+def verify_unit_once(unit, info, repo, workdir, seed=None, rlimit_mult=1, modes=None):
     """-> dict(status=ok|fail|undecided, ...)"""
     res = {'unit': unit, 'failures': [], 'undecided': [], 'regions': [], 'functions': [], 'verified': 0, 'errors': 0,
            'canaries_ok': [], 'trusted': [], 'wall': 0.0, 'smt_us': 0, 'cmd': '', 'notes': []}
     try:
-        a = asm.assemble(info['path'], repo)
+        a = asm.assemble(info['path'], repo, modes=modes)
     except asm.AssembleError as e:
         res['undecided'].append('assemble: %s' % e)
         return res
@@ -260,6 +260,51 @@ def verify_unit(unit, info, repo, workdir, seed=None, rlimit_mult=1):
     if res['verified'] == 0 and not frontend:
         res['undecided'].append('zero obligations verified')
     return res
+
+
+def verify_unit(unit, info, repo, workdir, seed=None, rlimit_mult=1):
+    """verification with the two fallbacks for functions whose CHANGED body no longer fits its in-body annotations or has left
+    the subset Verus accepts:
+      1. contract-only: the changed functions keep their pre/postconditions but lose loop invariants and proof hints;
+      2. external:      the changed functions are emitted external_body (assumed) so that everything else is still verified.
+    Obligations that fail or disappear in a fallback are NOT decided by the verifier alone: report() asks the replay program for a
+    concrete failing input on the real code and reports UNDECIDED when there is none."""
+    r = verify_unit_once(unit, info, repo, workdir, seed, rlimit_mult)
+    changed = [reg for reg in r['regions'] if reg.get('changed_since_baseline')]
+    # assumed (external_body) functions are trusted for their baseline text only
+    for reg in changed:
+        if reg['mode'].startswith('assumed'):
+            r['failures'].append(pseudo_failure(unit, reg, 'assumed_changed', 'an assumed (external_body) function changed: its contract was trusted for the baseline text only'))
+    frontend = [u for u in r['undecided'] if u.startswith('verus front-end error')]
+    if not frontend or not changed:
+        return r
+    labels = [reg['function'] for reg in changed if reg['mode'] == 'verified']
+    if not labels:
+        return r
+    for mode in ('contract_only', 'external', 'stub'):
+        r2 = verify_unit_once(unit, info, repo, workdir, seed, rlimit_mult, modes={l: mode for l in labels})
+        if any(u.startswith('verus front-end error') or u.startswith('assemble') for u in r2['undecided']):
+            continue
+        r2['notes'] = r2['notes'] + ['fallback %s for changed function(s) %s after: %s' % (mode, ', '.join(labels), frontend[0][:200])]
+        r2['fallback'] = mode
+        for f in r2['failures']:
+            if f['function'] in labels:
+                f['fallback'] = mode
+        if mode in ('external', 'stub'):
+            for reg in r2['regions']:
+                if reg['function'] in labels:
+                    r2['failures'].append(pseudo_failure(unit, reg, 'unverifiable', 'the changed function is outside what the verifier accepts (%s); it was assumed so that the rest of the unit could be checked' % frontend[0][:160]))
+        for reg in changed:
+            if reg['mode'].startswith('assumed'):
+                r2['failures'].append(pseudo_failure(unit, reg, 'assumed_changed', 'an assumed (external_body) function changed'))
+        return r2
+    return r
+
+
+def pseudo_failure(unit, reg, kind, msg):
+    return {'unit': unit, 'function': reg['function'], 'verus_fn': None, 'kind': kind, 'message': msg, 'site': '', 'site_is_real_code': True,
+            'clause': '', 'aux': False, 'props': reg['props'], 'source_file': reg['source_file'], 'source_line': reg['line'],
+            'source_sha256': reg['sha256'], 'changed_since_baseline': True, 'rendered': msg, 'fallback': kind}
 
 
 def region_verus_name(reg):
@@ -455,11 +500,25 @@ def report(prop, tier, seed, results, extra, wall):
         print('KNOWN-FINDING: property=%s obligation=%s %s' % (prop, k['obligation'], k['what']))
     # group violations by obligation id
     byid = {}
+    del_ids = []
     for f in violations:
         byid.setdefault(obligation_id(f), []).append(f)
     for oid, fs in sorted(byid.items()):
+        if all(f.get('fallback') for f in fs) and not any(f.get('counterexample') for f in fs):
+            # not decided by the verifier alone (see verify_unit): only a concrete failing execution of the real code makes it a violation
+            try:
+                import falsify
+                cex0 = falsify.search(prop, fs, REPO)
+            except Exception as e:
+                cex0 = None
+            if cex0 is None:
+                undecided.append('%s: %s; the replay program found no failing input on the real code' % (oid, fs[0]['message'][:200]))
+                del_ids.append(oid)
+                continue
+            fs[0]['counterexample'] = cex0
+            fs[0]['decided_by'] = 'concrete replay on the real code (the deductive obligation could not be checked on the changed text)'
         safe = re.sub(r'[^A-Za-z0-9_.-]+', '_', oid)
-        path = os.path.join(outdir, '%s-%s.json' % (prop, safe))
+        path = os.path.join(outdir, '%s-%s-%s.json' % (prop, safe[:120], hashlib.sha256(oid.encode()).hexdigest()[:6]))
         cex = None
         for f in fs:
             if f.get('counterexample'):
@@ -479,7 +538,12 @@ def report(prop, tier, seed, results, extra, wall):
                'note': 'obligation is discharged on the unchanged tree; it fails on the current /repo working tree'}
         json.dump(doc, open(path, 'w'), indent=1)
         tail = '' if cex else ' no-failing-input-found'
-        print('VIOLATION property=%s replay=%s obligation=%s site=%r%s' % (prop, path, oid, fs[0].get('site', '')[:80], tail))
+        site = fs[0].get('site', '')[:80]
+        if not site and cex:
+            site = ('%s :: %s' % (cex.get('input', ''), cex.get('observed', '')))[:160]
+        print('VIOLATION property=%s replay=%s obligation=%s site=%r%s' % (prop, path, oid, site, tail))
+    for oid in del_ids:
+        byid.pop(oid, None)
     for u in undecided:
         print('UNDECIDED property=%s reason=%s' % (prop, u))
     # ---- evidence
